@@ -47,6 +47,13 @@ def _routine(name, key):
         return lambda: dt_.diag(cola.no_dispatch(Agen), 0, de.Hutch(tol=5e-2, max_iters=2, key=key))
     if name == "trace(Hutch)":
         return lambda: np.asarray(dt_.trace(cola.no_dispatch(Agen), de.Hutch(tol=5e-2, max_iters=2, key=key)))
+    if name == "diag(Auto object reused)":
+        # the same algorithm object is handed to two calls (tol large enough for the stochastic estimator to be selected)
+        alg = cola.linalg.Auto(tol=0.2, max_iters=2, key=key)
+        return lambda: dt_.diag(cola.no_dispatch(Agen), 0, alg)
+    if name == "trace(Auto object reused)":
+        alg = cola.linalg.Auto(tol=0.2, max_iters=2, key=key)
+        return lambda: np.asarray(dt_.trace(cola.no_dispatch(Agen), alg))
     if name == "lanczos-default-start":
         from cola.linalg.decompositions.lanczos import lanczos
         return lambda: lanczos(Apsd, max_iters=3, key=key)[0].to_dense()
@@ -80,33 +87,58 @@ def case_state(T, name, key):
     from symx import rng, shim
     if not T.sym:
         # replay on the real generator: snapshot the real global state around the calls
-        same = True
+        from cola.backends import np_fns
+        same, indep, ident, first, blocks_ok = True, True, True, None, True
         for prior in (0, 1, 2):
             # user histories before the call: none, an odd number of legacy normal draws (leaves a cached Gaussian in the state), an even number
-            np.random.seed(2024)
+            np.random.seed(2024 + 17 * prior)
             for _ in range(prior):
                 np.random.randn()
             before = np.random.get_state()
-            r1 = np.array(_routine(name, key)(), dtype=complex)
-            r2 = np.array(_routine(name, key)(), dtype=complex)
+            blocks = []
+            orig_randn = np_fns.randn
+
+            def rec(*a, **k):
+                out = orig_randn(*a, **k)
+                blocks.append(np.array(out, copy=True))
+                return out
+            np_fns.randn = rec
+            try:
+                thunk = _routine(name, key)
+                r1 = np.array(thunk(), dtype=complex)
+                n1 = len(blocks)
+                r2 = np.array(thunk(), dtype=complex)
+            finally:
+                np_fns.randn = orig_randn
             after = np.random.get_state()
             same = same and before[0] == after[0] and np.array_equal(before[1], after[1]) and before[2:] == after[2:]
+            ident = ident and r1.shape == r2.shape and bool(np.array_equal(r1, r2))
+            if first is None:
+                first = r1
+            indep = indep and first.shape == r1.shape and bool(np.array_equal(first, r1))
+            one = blocks[:n1]
+            blocks_ok = blocks_ok and not any(a.shape == b.shape and a.size > 1 and np.array_equal(a, b) for i, a in enumerate(one) for b in one[i + 1:])
         T.check(f"{name}: global state restored (final state term == s0 for every Seed / Adv)", bool(same), "np.random.get_state() changed")
-        T.check(f"{name}: never draws from the global state", bool(same))
-        T.check(f"{name}: same key -> identical result", r1.shape == r2.shape and bool(np.array_equal(r1, r2)), "results differ between two calls with the same key")
+        T.check(f"{name}: never draws from the global state", bool(same and indep), "the result depends on the user's draws before the call")
+        T.check(f"{name}: same key -> identical result", ident, "results differ between two calls with the same key")
+        T.check(f"{name}: successive draws of one call start from different generator states", blocks_ok, "two probe blocks of one call are bit-identical")
         return
     was = shim.MODE["symbolic"]
     shim.symbolic(False)
     model = rng.RngModel("concrete")
     saved = rng.install(model)
     try:
-        r1 = np.array(_routine(name, key)(), dtype=complex)
+        thunk = _routine(name, key)
+        r1 = np.array(thunk(), dtype=complex)
         mid_restored = model.state_restored()
-        r2 = np.array(_routine(name, key)(), dtype=complex)
+        first_call_terms = list(model.draw_terms)
+        r2 = np.array(thunk(), dtype=complex)
         T.check(f"{name}: global state restored (final state term == s0 for every Seed / Adv)", mid_restored and model.state_restored(), model.term.sexpr()[:200])
         T.check(f"{name}: never draws from the global state", not model.global_draws, f"{model.global_draws[:3]}")
         T.check(f"{name}: same key -> identical result", r1.shape == r2.shape and bool(np.array_equal(r1, r2)), "results differ between two calls with the same key")
         T.check(f"{name}: draws something", model.ndraws > 0)
+        dup = [t for i, t in enumerate(first_call_terms) if t in first_call_terms[:i]]
+        T.check(f"{name}: successive draws of one call start from different generator states", not dup, f"state term drawn from twice: {dup[:1]}")
     finally:
         rng.uninstall(saved)
         shim.symbolic(was)
@@ -231,7 +263,7 @@ def case_hutch_cap(T, max_iters, k, rand):
 def cases(tier, seed):
     out = []
     for name in ("randn", "hutch-normal", "hutch-rademacher-k1", "diag(Hutch)", "trace(Hutch)", "lanczos-default-start", "arnoldi-default-start", "power-iteration",
-                 "nystrom", "slq", "randomized_svd", "lobpcg"):
+                 "nystrom", "slq", "randomized_svd", "lobpcg", "diag(Auto object reused)", "trace(Auto object reused)"):
         for key in (None, 7, 123456789):
             if name in ("lobpcg", "randomized_svd") and key is not None:
                 continue
@@ -249,5 +281,6 @@ def cases(tier, seed):
 
 
 BOUNDS = dict(routines="randn, hutchinson_diag_estimate (both probe kinds), diag / trace with Hutch(key), default start vectors of lanczos / arnoldi / power iteration, "
-              "NystromPrecond, stochastic_lanczos_quad, randomized_svd, lobpcg; keys None / 7 / 123456789", hutchinson="symbolic operators n in {2,3}, all offsets, both probe "
+              "NystromPrecond, stochastic_lanczos_quad, randomized_svd, lobpcg, diag / trace with a reused Auto(tol, key) object; keys None / 7 / 123456789; "
+              "float replay under three user histories of the global generator", hutchinson="symbolic operators n in {2,3}, all offsets, both probe "
               "distributions, one batch of n probes; iteration caps {1,2,5,17}", state="initial global state arbitrary (free constant), Seed / Adv uninterpreted")
